@@ -22,8 +22,18 @@ def run(tier):
                            "predicates and comparisons must agree, and both must equal the model; Transparent.tla proves on "
                            "symbolic derivative parts that no part can occur in a real part and exports the operation table "
                            "swept over random and special floats (NaN / infinite / absent parts, plain-float instances)",
-                           extra_jobs=[transparent_run])
+                           extra_jobs=[transparent_run] + [lambda k=k, n=n, m=m, i=i: machine_run(k, n, m, "AllOps", depth=3, mant=53, props=False, inner=i,
+                                                                                                   loadset="LoadSetNestedQuick", workers=3, tag="_tworun")
+                                                           for (k, n, m, i) in NESTED_THOROUGH])
     tp = extra[0]
+    # nested types: two-run replay (same innermost real parts, every derivative scalar of both levels changed)
+    for res in extra[1:]:
+        chk.add_tlc(res, "calculator behaviours of a nested type")
+        if res.violated:
+            chk.model_violation(res, "MachineN")
+            continue
+        rep = replay(res, mode="tworun")
+        absorb_replay(chk, rep, "two-run replay (nested type)")
     chk.add_tlc(tp, "symbolic operands (constant real part, every derivative scalar an indeterminate): NoPartInRe, ReIsProgram, "
                     "PredOnRe for every type x operation x presence pattern")
     if tp.violated:
